@@ -63,6 +63,8 @@ def scenarios(tier, pid):
        "--watch", "10", "--preempt", 2)
     sc("add_vs_waiting_delivery", ("C09", "C10"), "--consumer", "w,p", "--others", "a12;W12",
        "--watch", "10", "--preempt", 2)
+    # a batch handed to another thread is scanned while the instance hands out the next one
+    sc("two_scanners_one_delivery", ("C10",), "--consumer", "y,p", "--others", "D10;Y", "--preempt", 2)
     sc("raw_duplicate_in_initial_set", ("C10", "C12"), "--raw", "--consumer", "p,p", "--others", "D10,D12",
        "--watch", "10,12,10", "--preempt", 1)
     sc("burst_same_signal", ("C10",), "--consumer", "p,p,p", "--others", "D10,D10,D10;D10",
